@@ -263,6 +263,17 @@ theorem C14t_final_state (s : St) (hr : ReachableP s) (hm : Maximal s) :
         rcases hidle (s.owner c) with h | h <;> rw [h] at hpc <;> simp at hpc
     · omega
 
+/-- conversely a state all of whose activities are idle or finished is maximal: the maximal states
+    are exactly the states in which every operation has returned -/
+theorem C14t_maximal_iff (s : St) (hr : ReachableP s) :
+    Maximal s ↔ ∀ a, s.pc a = .idle ∨ s.pc a = .fin := by
+  refine ⟨fun hm => C14_no_deadlock s hr hm, fun hidle e hp => ?_⟩
+  have := hidle (actor e)
+  cases e <;> simp only [productive] at hp <;> simp only [actor] at this <;>
+    first
+      | (exfalso; simp at hp; done)
+      | (rcases this with h | h <;> simp [enabled, step, h])
+
 /-- **Why a callback was invoked** (every reachable state): an invoked callback was taken from the
     list by request_stop, or was run from its constructor (recorded at the constructor's finished
     store), or that inline run is still in progress. -/
@@ -443,5 +454,79 @@ theorem C14t_dtor_inside_own_callback_never_waits (s : St) (hr : ReachableF s) (
     (hbody : s.pc w = .body c inl) (hthr : thr s.K b = thr s.K w) : s.pc b ≠ .wait c := by
   intro hb
   exact C14_dtor_does_not_wait_for_own_thread s hr b c w hb (body_processes hbody) hthr.symm
+
+/-! ## Non-vacuity: complete runs of three small programs (2 threads, nesting depth 2) -/
+
+/-- thread 0 registers callback 0 and requests stop; the script of callback 0 destroys callback 0
+    (nested activity 2 = thread 0 inside the body): it does not wait -/
+def selfLog : List Ev :=
+  [.inv 0 (.reg 0), .load 0 false false 2, .acq 0, .push 0 0 false, .ret 0 false,
+   .inv 0 .rs, .load 0 false false 2, .acq 0, .deq 0 0 false, .preExec 0 0, .cbBegin 0 0,
+   .inv 2 (.unreg 0), .load 2 false true 2, .acq 2, .unlink 2 0 false, .selfChk 2 0 true true, .ret 2 false,
+   .cbEnd 0 0, .finStore 0 0 true, .load 0 false true 2, .acq 0, .rsDone 0, .ret 0 true, .done 0, .done 1]
+
+def selfOps : Nat → List Op :=
+  fun i => if i = 0 then [.call (.reg 0), .call .rs] else if i = 2 then [.call (.unreg 0)] else []
+
+def P0 : PSt := pinit 4 2 (fun a => a % 2 + 1) true true 2 selfOps 3
+
+/-- the whole log is a run of the program; `phi` goes from `4 + 62 · 3 = 190` to 2 (the two nested
+    activities stay idle); all 25 events count (no stutter); callback 0 ran once, is destroyed, and
+    every activity is idle or finished -/
+example : phi P0 = 190 := by decide
+example : (runLog pstep P0 selfLog).map (fun p => (phi p, todo p, p.s.runs 0, nSteps P0 selfLog,
+    decide (p.s.life 0 = .dead), (List.range 4).all (fun a => decide (p.s.pc a = .idle ∨ p.s.pc a = .fin)))) =
+    some (2, 0, 1, 25, true, true) := by decide
+/-- `mu` inside the body of the callback -/
+example : (runLog step P0.s (selfLog.take 11)).map mu = some 30 := by decide
+
+/-- thread 1 destroys callback 0 while it runs on thread 0: it waits (`selfChk … false`), is
+    released by `stop.waited` after the finished store, and returns -/
+def otherLog : List Ev :=
+  [.inv 0 (.reg 0), .load 0 false false 2, .acq 0, .push 0 0 false, .ret 0 false,
+   .inv 0 .rs, .load 0 false false 2, .acq 0, .deq 0 0 false, .preExec 0 0, .cbBegin 0 0,
+   .inv 1 (.unreg 0), .load 1 false true 2, .acq 1, .unlink 1 0 false, .selfChk 1 0 false false,
+   .cbEnd 0 0, .finStore 0 0 false, .waited 1 0, .ret 1 false, .load 0 false true 2, .acq 0, .rsDone 0, .ret 0 true,
+   .done 0, .done 1]
+
+def otherOps : Nat → List Op :=
+  fun i => if i = 0 then [.call (.reg 0), .call .rs] else if i = 1 then [.call (.unreg 0)] else []
+
+def P1 : PSt := pinit 4 2 (fun a => a % 2 + 1) true true 2 otherOps 2
+
+example : (runLog pstep P1 otherLog).map (fun p => (phi p, todo p, p.s.runs 0, nSteps P1 otherLog,
+    decide (p.s.life 0 = .dead), (List.range 4).all (fun a => decide (p.s.pc a = .idle ∨ p.s.pc a = .fin)))) =
+    some (2, 0, 1, 26, true, true) := by decide
+/-- the hypotheses of `C14t_waiting_dtor_released` are met after 16 events: thread 1 is in `wait 0`,
+    `stop.waited` is rejected there (flag not stored) and is in the rest of the log -/
+example : ∃ s, runLog step P1.s (otherLog.take 16) = some s ∧ s.pc 1 = .wait 0 ∧
+    step s (.waited 1 0) = none := by
+  refine ⟨_, rfl, ?_⟩
+  decide
+example : (otherLog.drop 16).take 3 = [.cbEnd 0 0, .finStore 0 0 false, .waited 1 0] := rfl
+example : ∃ s, ReachableP s ∧ s.pc 1 = .wait 0 :=
+  ⟨_, ⟨4, 2, _, 2, otherLog.take 16, by decide, ident2_faithful, rfl⟩, by decide⟩
+
+/-- same program, other schedule: thread 1 destroys callback 0 **before** request_stop takes the
+    list; thread 0 spins meanwhile (two spin re-loads that see the lock bit and one spurious CAS
+    failure: three stutters).  The callback is never invoked; 19 of the 22 events count. -/
+def earlyLog : List Ev :=
+  [.inv 0 (.reg 0), .load 0 false false 2, .acq 0, .push 0 0 false, .ret 0 false,
+   .inv 1 (.unreg 0), .load 1 false false 2, .inv 0 .rs, .load 0 false false 2,
+   .acq 1, .casFail 0 true false 2, .reload 0 true false 2, .reload 0 true false 2,
+   .unlink 1 0 true, .reload 0 false false 2, .casFail 0 false false 2,
+   .acq 0, .rsDone 0, .ret 0 true, .ret 1 false, .done 0, .done 1]
+
+example : (runLog pstep P1 earlyLog).map (fun p => (phi p, todo p, p.s.runs 0, p.s.deqd 0, nSteps P1 earlyLog,
+    earlyLog.length)) = some (2, 0, 0, false, 19, 22) := by decide
+example : (runLog pstep P1 earlyLog).map (fun p => (decide (p.s.life 0 = .dead),
+    (List.range 4).all (fun a => decide (p.s.pc a = .idle ∨ p.s.pc a = .fin)))) = some (true, true) := by decide
+/-- `mu` is constant across the two spin stutters (after 11 and after 13 events) and across the
+    spurious CAS failure (after 15 and after 16 events) -/
+example : ((runLog step P1.s (earlyLog.take 11)).map mu, (runLog step P1.s (earlyLog.take 13)).map mu,
+    (runLog step P1.s (earlyLog.take 15)).map mu, (runLog step P1.s (earlyLog.take 16)).map mu) =
+    (some 75, some 75, some 26, some 26) := by decide
+/-- an operation that is not in the program is rejected; so is `done` before the list is empty -/
+example : pstep P1 (.inv 1 .rs) = none ∧ pstep P1 (.done 0) = none ∧ (pstep P1 (.done 2)).isNone = true := by decide
 
 end PikaVerif.C14t
